@@ -219,7 +219,9 @@ fn check(case: &Case) -> Verdict {
         for (ci, c) in curves.iter().enumerate() {
             for (vi, p) in c.points().iter().enumerate() {
                 let sd = plane.signed_distance_to_point(p);
-                ensure!(sd.abs() <= 1e-8 * scale, "C13/section/vertex_off_plane", "curve {ci} vertex {vi} is {sd:e} from the plane");
+                // as below: vertices within the sectioning epsilon (1e-6, absolute) of the plane are taken as lying on it
+                let ptol = if robust { (1e-8 * scale).max(2e-6) } else { 1e-8 * scale };
+                ensure!(sd.abs() <= ptol, "C13/section/vertex_off_plane", "curve {ci} vertex {vi} is {sd:e} from the plane");
             }
         }
         if !robust {
